@@ -122,7 +122,21 @@ def impl_hier_compile(case):
         from qref import SchemaV1
         doc = SchemaV1(**doc)
         _force_listing(doc.program, case["routine"])
-    res = compile_routine(doc, **kw)
+    if case.get("env"):
+        # an environment switch spelled the way its own documentation spells it (BARTIQ_...=False means off)
+        import os
+        old_env = {k: os.environ.get(k) for k in case["env"]}
+        os.environ.update(case["env"])
+        try:
+            res = compile_routine(doc, **kw)
+        finally:
+            for k, v in old_env.items():
+                if v is None:
+                    os.environ.pop(k, None)
+                else:
+                    os.environ[k] = v
+    else:
+        res = compile_routine(doc, **kw)
     tree = walk_compiled(res.routine, flags)
     return {"tree": tree, "inexact": flags["inexact"]}
 
